@@ -327,3 +327,181 @@ def run(repo: Repo, rep: Report) -> None:  # noqa: F811
             by_text = any(isinstance(s, ast.Call) and norm(s.func) == "str" for s in (c.left, c.comparators[0])) or any(isinstance(s, ast.Name) and s.id in strs for s in (c.left, c.comparators[0]))
             rep.ob("C02.l-graphs-are-looked-up-by-term-equality", gm, q, c, not by_text,
                    "term equality" if not by_text else "identifiers are compared as text: quads written with a Graph object named _:L land in the graph <L> (or vice versa), whichever the store lists first", node=c)
+
+
+_run_base4 = run
+
+
+def run(repo: Repo, rep: Report) -> None:  # noqa: F811
+    _run_base4(repo, rep)
+    from vlib import h_c02 as H
+
+    T = repo.typed
+    gm = repo.mod("rdflib.graph")
+    CG = "rdflib.graph.ConjunctiveGraph"
+    if CG not in T.classes or "rdflib.graph.Dataset" not in T.classes:
+        raise AnalysisError("ConjunctiveGraph / Dataset not found among the typed classes")
+
+    # ------------------------------------------------------------------ (m)
+    # A dataset object handed in where a graph is expected (BatchAddGraph(ds).add(t) -> ds.addN([(s, p, o, ds)]), cg += g,
+    # ds.add((s, p, o, ds))) must be resolved to a member graph.  Every method of the dataset classes that takes a
+    # "graph or graph name" and answers with a graph is executed abstractly under the scenario "the argument is a
+    # ConjunctiveGraph/Dataset on self.store" (tests on the argument - is None, isinstance, x.store is self.store - are folded,
+    # everything else forks): no reachable return hands the argument itself back.
+    rep.rule("C02.m-dataset-as-context-is-its-default-graph",
+             "a method of ConjunctiveGraph/Dataset that resolves `graph or name` to a graph never returns a ConjunctiveGraph/Dataset argument living on the same store as it is: "
+             "that object is not one of the dataset's graphs, its identifier is a private BNode - ds.add((s, p, o, ds)) / BatchAddGraph(ds).add((s, p, o)) would file the triple in a "
+             "hidden graph _:<id of ds> instead of the default graph, and ds.quads((None, None, None, ds)) would look there", floor=4)
+    supers = {c.rsplit(".", 1)[-1] for c in T.mro(CG)}
+    subs = {c.rsplit(".", 1)[-1] for c in T.subclasses(CG)} - {"ConjunctiveGraph"}
+    by_last: dict[str, set[str]] = {}
+    for c in T.classes:
+        by_last.setdefault(c.rsplit(".", 1)[-1], set()).add(c)
+
+    def class_verdict(name: str):
+        if name in supers:
+            return True
+        if name in subs:
+            return None
+        if name in ("str", "bytes", "int", "float", "bool", "tuple", "list", "dict", "set"):
+            return False
+        full = by_last.get(name)
+        if full and len(full) == 1 and not (set(T.mro(next(iter(full)))) & {CG}):
+            return False  # a class the scenario object is not an instance of (QuotedGraph, URIRef, ...)
+        return None
+
+    for cls in sorted(T.subclasses(CG)):
+        modname, _, cname = cls.rpartition(".")
+        if modname not in repo.modules or not repo.mod(modname).has(cname):
+            continue
+        m = repo.mod(modname)
+        for mname, f in m.methods(cname).items():
+            if f.returns is None or "Graph" not in set(__import__("re").findall(r"[A-Za-z_][A-Za-z_0-9]*", norm(f.returns))):
+                continue
+            recv = H.receiver_name(f)
+            for p_ in H.graph_params(f, ("Graph", "_ContextType")):
+                sc = H.Scenario(f, p_, recv or "self", class_verdict)
+                q = "%s.%s" % (cname, mname)
+                rep.analysed("%s:%s" % (m.rel, q))
+                if not sc.hits:
+                    rep.ob("C02.m-dataset-as-context-is-its-default-graph", m, q, "%s(%s = a dataset on the same store)" % (mname, p_), True,
+                           "resolved to a member graph on every path", node=f)
+                for h in sc.hits:
+                    rep.ob("C02.m-dataset-as-context-is-its-default-graph", m, q, h, False,
+                           "with %s a Dataset/ConjunctiveGraph on self.store this return hands the dataset object itself back as the graph: quads written with it go to a hidden graph "
+                           "named by the dataset's own BNode identifier, not to its default graph" % p_, node=h)
+
+    # ------------------------------------------------------------------ (n)
+    # Dataset.__iter__ is overridden: it yields the QUADS of ALL graphs, whatever default_union says.  A serializer is handed
+    # `Graph` (statically) that may be a Dataset; it must enumerate it through the query API (triples(), subjects(), contexts(), quads() ...),
+    # which honours default_union and yields what its name says - never by iterating the object.
+    rep.rule("C02.n-serializers-enumerate-the-graph-through-its-query-api",
+             "no serializer iterates the graph it was given directly (for x in self.store / list(self.store) / sorted(self.store) ...): the object may be a Dataset, whose __iter__ "
+             "yields the quads of every graph - Dataset(default_union=False).serialize(format='nt') would dump the triples of all named graphs (a triple held by two graphs twice) "
+             "as one flattened graph instead of the default graph", floor=14)
+    ds_iter = "__iter__" in T.classes["rdflib.graph.Dataset"]["defs"]
+    if not ds_iter:
+        # nothing distinguishes iteration from triples() any more: the rule has no object
+        raise AnalysisError("Dataset no longer overrides __iter__: rule C02.n must be re-derived")
+    SER = "rdflib.serializer.Serializer"
+    sm = repo.mod("rdflib.serializer")
+    init = sm.func("Serializer.__init__")
+    gparams = set(H.graph_params(init, ("Graph",)))
+    recv0 = H.receiver_name(init)
+    attrs = {t.attr for n in own_nodes(init) if isinstance(n, (ast.Assign, ast.AnnAssign)) and isinstance(n.value, ast.Name) and n.value.id in gparams
+             for t in (n.targets if isinstance(n, ast.Assign) else [n.target]) if H.attr_of_receiver(t, recv0, t.attr if isinstance(t, ast.Attribute) else "")}
+    if len(attrs) != 1:
+        raise AnalysisError("Serializer.__init__: the attribute that keeps the graph to serialize was not found (%s)" % sorted(attrs))
+    gattr = next(iter(attrs))
+    n_cls = 0
+    for cls in sorted(T.subclasses(SER)):
+        modname, _, cname = cls.rpartition(".")
+        if cls == SER or modname not in repo.modules or not repo.mod(modname).has(cname):
+            continue
+        m = repo.mod(modname)
+        n_cls += 1
+        bad = 0
+        for mname, f in m.methods(cname).items():
+            recv = H.receiver_name(f)
+            if recv is None:
+                continue
+            src = lambda e, recv=recv: H.attr_of_receiver(e, recv, gattr)  # noqa: E731
+            al = H.aliases_of(f, src)
+            for e, owner, kind in H.iterated_exprs(f):
+                if src(e) or (isinstance(e, ast.Name) and e.id in al):
+                    bad += 1
+                    rep.ob("C02.n-serializers-enumerate-the-graph-through-its-query-api", m, "%s.%s" % (cname, mname), "%s over %s" % (kind, "<receiver>.%s" % gattr), False,
+                           "the graph to serialize is iterated directly: for a Dataset that is every quad of every graph (default_union ignored, duplicates kept, the fourth component dropped by "
+                           "a triple writer); enumerate it with .triples((None, None, None)) / .quads()", node=owner)
+            rep.analysed("%s:%s.%s" % (m.rel, cname, mname))
+        if not bad:
+            rep.ob("C02.n-serializers-enumerate-the-graph-through-its-query-api", m, cname, "every enumeration of <receiver>.%s in %s goes through a method of the graph" % (gattr, cname), True, "", node=m.cls(cname))
+    if n_cls == 0:
+        raise AnalysisError("no Serializer subclass found")
+
+    # ------------------------------------------------------------------ (o)
+    # "a query restricted to an empty or unknown graph returns nothing rather than falling back": where the query engine or the
+    # dataset classes decide on the EMPTINESS of a graph (truth value / len() of an expression whose static type is Graph, not Optional -
+    # the Optional case is rule a), the same decision also asks whether the graph EXISTS (consults contexts()/graphs()/get_graph of the
+    # dataset, directly or through a local helper).  Emptiness alone cannot tell `exists and holds nothing` from `unknown`.
+    rep.rule("C02.o-emptiness-does-not-decide-existence",
+             "in the SPARQL engine and the dataset classes every branch taken because a graph view is empty (truthiness or len() of a Graph) is also conditioned on a look-up in the "
+             "dataset's registry of graphs (contexts() / graphs() / get_graph()): SELECT ... FROM <g> on a dataset where <g> exists and is empty must see an empty default graph, "
+             "not try to load <g> as a URL (fallback to another source)", floor=3)
+    REG = {"contexts", "graphs", "get_graph"}
+    GRAPH = "rdflib.graph.Graph"
+    oscopes = []
+    for name in ("rdflib.plugins.sparql.sparql", "rdflib.plugins.sparql.evaluate", "rdflib.plugins.sparql.update", "rdflib.plugins.sparql.processor"):
+        mm = repo.mod(name)
+        for q, f in mm.functions():
+            if "." in q and isinstance(mm.defs.get(q.rsplit(".", 1)[0]), ast.FunctionDef):
+                continue  # nested defs are walked with their owner
+            oscopes.append((mm, q, f))
+    for cls in ("ConjunctiveGraph", "Dataset"):
+        for mn, f in gm.methods(cls).items():
+            oscopes.append((gm, "%s.%s" % (cls, mn), f))
+
+    def is_graph(mm, e) -> bool:
+        tf = T.type_of(mm.name, e)
+        return bool(tf) and bool(tf.items) and all(GRAPH in T.mro(c) for c in tf.items)
+
+    for mm, q, f in oscopes:
+        seen_o: set[int] = set()
+        for e, owner, kind in truthy.bool_contexts(f):
+            if id(e) in seen_o:
+                continue
+            seen_o.add(id(e))
+            sites = []
+            if not isinstance(e, (ast.Compare, ast.Constant)):
+                tf = T.type_of(mm.name, e)
+                if tf is not None and not tf.optional and is_graph(mm, e):
+                    sites.append(e)
+            for c in ast.walk(e):
+                if isinstance(c, ast.Call) and isinstance(c.func, ast.Name) and c.func.id == "len" and len(c.args) == 1 and is_graph(mm, c.args[0]):
+                    sites.append(c)
+            for s_ in sites:
+                enclosing = f
+                for p_ in mm.parents(s_):
+                    if isinstance(p_, (ast.FunctionDef, ast.AsyncFunctionDef)):
+                        enclosing = p_
+                        break
+                conj = H.guard_conjuncts(mm, e, f)
+                why = None
+                for cj in conj:
+                    if any(x is s_ for x in ast.walk(cj)) and not isinstance(cj, ast.BoolOp):
+                        continue  # the emptiness test itself
+                    why = H.consults_registry(mm, cj, enclosing, REG)
+                    if why:
+                        break
+                inner = owner
+                while not why and isinstance(inner, ast.If) and not inner.orelse and len(inner.body) == 1 and isinstance(inner.body[0], ast.If):
+                    # if <empty>: if <unknown>: fallback   - the same conjunction written as nested ifs
+                    inner = inner.body[0]
+                    why = H.consults_registry(mm, inner.test, enclosing, REG)
+                if not why and isinstance(owner, ast.If) and H.both_arms_raise(mm, owner):
+                    why = "(none needed: both the branch and its continuation raise - the test only selects the error message)"
+                rep.ob("C02.o-emptiness-does-not-decide-existence", mm, truthy.where_of(mm, s_, q), "%s [in %s]" % (norm(s_), kind), bool(why),
+                       ("existence asked as well: " + why) if why else
+                       "the branch is decided by the emptiness of %s alone: a graph that exists in the dataset and holds no triples is treated like an unknown one (fallback to another source)" % norm(s_),
+                       node=s_)
+        rep.analysed("%s:%s" % (mm.rel, q))
